@@ -4,7 +4,8 @@
    strings compared otherwise. *)
 From Coq Require Import NArith ZArith.
 From Stam Require Import Base.Tac Model.Offset Model.Utf8 Model.Store Model.Validate
-     Spec.StoreSpec Spec.ValidateSpec Proofs.StoreInv Proofs.StoreSets Proofs.ValidateJoin Proofs.ValidateProtect Proofs.ValidateReload.
+     Spec.StoreSpec Spec.ValidateSpec Proofs.StoreInv Proofs.StoreSets Proofs.ValidateJoin Proofs.ValidateProtect Proofs.ValidateReload
+     Proofs.StoreSel Proofs.StoreRange Proofs.ValidateNest.
 
 (** W s: every invariant of a reachable store (reverse indices exact and chronological, dataset
     invariants incl. the deduplicated vocabulary, exact id maps, no dangling reference).
@@ -142,6 +143,30 @@ Theorem C18_same_parent_same_selection : forall s lens singles p r t m rs pa pr 
   pb <= b -> b <= e -> e <= pe ->
   reresolve_leaf s lens singles (LAnnText p r t m) = Some (Some (r, (b, e))).
 Proof. exact reresolve_relative_same. Qed.
+
+(** The whole store.  W2 = W + one handle per range (SelInv) + every selection inside its resource
+    (RangeInv, C04) + every annotation-relative selection inside the single selection of its
+    parent (NestInv); it holds in every store built by the store operations and protect_text. *)
+Theorem C18_reachable_ranges : forall s, reach s -> W2 s.
+Proof. exact reach_W2. Qed.
+
+Theorem C18_histories_ranges : forall ops, Forall op_ok ops -> W2 (run ops).
+Proof. exact reachable_W2. Qed.
+
+(* loading the store's own serialisation against resources of unchanged length is never refused
+   and gives every annotation exactly the text selections it had, in the order of the code *)
+Theorem C18_same_lengths_same_selections : forall s lens, W2 s ->
+  (forall r rs, get_res s r = Some rs -> lens r = r_len rs) ->
+  reresolve s lens = Some (live_ranges s (seq 0 (length (anns s)))).
+Proof. intros s lens [HW _ HR HN] Hl. exact (reresolve_same s lens HR HN (W_wf s HW) Hl). Qed.
+
+(* hence: the protected store, loaded against ANY texts of the same lengths, validates exactly as
+   C18_detects says (the verdicts after loading are validate_ann on the unchanged selections) *)
+Theorem C18_reload_same_lengths : forall H txts txts' s m, reach s -> texts_fit s txts ->
+  map (@length N) txts = map (@length N) txts' ->
+  let s' := fst (protect H txts s m) in
+  reload_verdicts H s' txts' = Some (map (validate_ann H txts' s') (live_anns s')).
+Proof. exact protect_reload_same_lengths. Qed.
 
 (* Known class: when the offsets are resolved again against a text of another length, the strings
    an annotation selects may differ while their joins coincide (a Multi selection [0,1)+[2,5) of
